@@ -627,6 +627,9 @@ func bitlenCmp(op string, a, b *Term) *Term {
 	return nil
 }
 
+// MaxStrLen (assumption A-STRLEN): every string/byte slice is shorter than 2^31 bytes.
+var MaxStrLen = big.NewInt(1<<31 - 1)
+
 // ---------- interval analysis (sound, cheap)
 
 var (
@@ -760,7 +763,7 @@ func bounds1(t *Term) (lo, hi *big.Int) {
 		}
 		return
 	case "str.len":
-		return big.NewInt(0), nil
+		return big.NewInt(0), MaxStrLen
 	case "str.indexof":
 		return big.NewInt(-1), nil
 	case "str.to_int":
@@ -1291,6 +1294,9 @@ func Script(asserts []*Term) (string, []*Term) {
 		}
 		fmt.Fprintf(&sb, "(define-fun t%d () %s %s)\n", t.ID, t.Sort, smtExpr(t, named))
 		named[t.ID] = true
+		if t.Op == "str.len" {
+			fmt.Fprintf(&sb, "(assert (<= t%d %s))\n", t.ID, MaxStrLen.String())
+		}
 		if t.Op == "uf" {
 			syms = append(syms, t)
 		}
